@@ -54,6 +54,10 @@ def _run_rules(pid, spec, repo):
                 if f.verdict == "violation":
                     keys.append(f.key)
             n_viol += len(o.errors)
+            for (name, actual, minimum) in o.floors:
+                if actual < minimum:
+                    n_viol += 1
+                    keys.append("floor:%s:%s(%s<%s)" % (o.rule, name, actual, minimum))
     return keys, n_viol
 
 
